@@ -94,7 +94,7 @@ Section WriterProofs.
     exists done_blocks rest, stage ops = done_blocks ++ rest /\
       cs (w_run ops sched) = st_blocks sink0 done_blocks.
   Proof.
-    destruct (prefix_invariant blk (list chunk) (sink chunk) frame_of (write_frame fail_at) serr
+    destruct (prefix_invariant blk (list chunk) (sink chunk) frame_of w_ready (write_frame fail_at) serr
                 (w_can_submit P) P sink0 (stage ops) sched) as [rest [H1 H2]].
     exists (cons (w_run ops sched)), rest. split; [exact H1|exact H2].
   Qed.
@@ -177,22 +177,22 @@ Section WriterProofs.
 
   Theorem writer_finish_terminates ops pick :
     (forall s, wf blk (sink chunk) s -> w_final s = false -> enabled serr (w_can_submit P) P s (pick s) = true) ->
-    w_final (iter frame_of (write_frame fail_at) serr (w_can_submit P) P pick
+    w_final (iter frame_of w_ready (write_frame fail_at) serr (w_can_submit P) P pick
                   (5 * length (stage ops)) (w_init chunk ops)) = true.
   Proof.
     intros H. unfold MtWriter.w_final, w_init.
-    exact (pipeline_terminates blk (list chunk) (sink chunk) frame_of (write_frame fail_at) serr
+    exact (pipeline_terminates blk (list chunk) (sink chunk) frame_of w_ready (write_frame fail_at) serr
              (w_can_submit P) P P_pos pick sink0 (stage ops) H).
   Qed.
 
   (* ... and such a strategy exists (non-vacuity of the premise above) *)
   Theorem writer_finish_terminates_default ops :
-    w_final (iter frame_of (write_frame fail_at) serr (w_can_submit P) P
+    w_final (iter frame_of w_ready (write_frame fail_at) serr (w_can_submit P) P
                   (default_pick serr (w_can_submit P) P)
                   (5 * length (stage ops)) (w_init chunk ops)) = true.
   Proof.
     assert (C0 : w_can_submit P 0 false = true) by (unfold w_can_submit; apply Nat.ltb_lt; exact P_pos).
-    exact (pipeline_terminates_default blk (list chunk) (sink chunk) frame_of (write_frame fail_at) serr
+    exact (pipeline_terminates_default blk (list chunk) (sink chunk) frame_of w_ready (write_frame fail_at) serr
              (w_can_submit P) P P_pos C0 sink0 (stage ops)).
   Qed.
 
